@@ -105,6 +105,20 @@ class Walk:
             return self.fail(("apply-result-type", rule_name), det)
         new = ap.result_root
         det["result"] = E.text_of(new)
+        # the rewrite depends on the tree only: a newly constructed rule object must produce the same tree as the
+        # long-lived one that has seen every earlier state of this walk (clones keep node ids)
+        fresh_rule = dict(E.rule_instances())[rule_name]
+        try:
+            ok2 = fresh_rule.can_apply_to(node)
+        except Exception:
+            ok2 = True
+        if ok2:
+            ap2 = E.apply(fresh_rule, node)
+            if ap2.error is None and ap2.result_root is not None and A.sig(ap2.result_root) != A.sig(new):
+                det["fresh_instance_result"] = E.text_of(ap2.result_root)
+                return self.fail(("rewrite-depends-on-history", rule_name, ap.arrangement), det)
+        else:
+            return self.fail(("applicability-depends-on-history", rule_name), det)
         aud = A.audit(new)
         if aud is not None:
             det["audit"] = aud
